@@ -580,7 +580,10 @@ func TestPropTaskHistories(t *testing.T) {
 type orderSpec struct {
 	Module int      `json:"module"`
 	Kinds  []string `json:"submissions"` // per batch task: queue | prioritize | asap
-	Cancel []bool   `json:"cancel"`      // cancel the task while it is waiting
+	// Second: an optional second submission of the same task, issued after all first submissions (in task order):
+	// e.g. a prioritized task that is then marked start-as-soon-as-possible must move to the very front.
+	Second []string `json:"second_submissions"`
+	Cancel []bool   `json:"cancel"` // cancel the task while it is waiting
 	HoldMS int      `json:"hold_ms"`
 }
 
@@ -592,6 +595,7 @@ func TestPropQueueOrder(t *testing.T) {
 		for i := 0; i < n; i++ {
 			o.Kinds = append(o.Kinds, rapid.SampledFrom([]string{"queue", "queue", "prioritize", "prioritize", "asap"}).Draw(t, "kind"))
 			o.Cancel = append(o.Cancel, rapid.IntRange(0, 5).Draw(t, "cancel") == 0)
+			o.Second = append(o.Second, rapid.SampledFrom([]string{"", "", "", "asap", "asap", "prioritize", "queue"}).Draw(t, "second"))
 		}
 		casePrefix.Store(prefix)
 		r := &recorder{tasks: map[string]*modules.Task{}}
@@ -630,26 +634,65 @@ func TestPropQueueOrder(t *testing.T) {
 				return nil
 			}).MaxDelay(time.Hour)
 		}
+		// submissions in issue order: all first submissions, then the second ones
+		type sub struct {
+			task int
+			kind string
+		}
+		var subs []sub
 		for i := 0; i < n; i++ {
-			r.apply(tasks[i], fmt.Sprintf("%sb%d", prefix, i), o.Kinds[i], "batch")
+			subs = append(subs, sub{i, o.Kinds[i]})
+		}
+		for i := 0; i < n; i++ {
+			if o.Second[i] != "" {
+				subs = append(subs, sub{i, o.Second[i]})
+			}
+		}
+		for _, sb := range subs {
+			r.apply(tasks[sb.task], fmt.Sprintf("%sb%d", prefix, sb.task), sb.kind, "batch")
 		}
 		for i := 0; i < n; i++ {
 			if o.Cancel[i] {
 				r.apply(tasks[i], fmt.Sprintf("%sb%d", prefix, i), "cancel", "batch")
 			}
 		}
-		// model order: start-as-soon-as-possible latest first, then prioritized FIFO, then normal FIFO
+		// model order (statement): start-as-soon-as-possible tasks, latest request first; then prioritized tasks in
+		// submission order; then normal tasks in submission order. A task belongs to the highest class it was submitted to;
+		// its place is its latest asap request, else its first prioritized submission, else its first queue submission.
+		lastASAP := make([]int, n)
+		firstPrio := make([]int, n)
+		firstQueue := make([]int, n)
+		for i := range lastASAP {
+			lastASAP[i], firstPrio[i], firstQueue[i] = -1, -1, -1
+		}
+		for idx, sb := range subs {
+			switch sb.kind {
+			case "asap":
+				lastASAP[sb.task] = idx
+			case "prioritize":
+				if firstPrio[sb.task] < 0 {
+					firstPrio[sb.task] = idx
+				}
+			case "queue":
+				if firstQueue[sb.task] < 0 {
+					firstQueue[sb.task] = idx
+				}
+			}
+		}
 		var want []string
-		for i := n - 1; i >= 0; i-- {
-			if o.Kinds[i] == "asap" && !o.Cancel[i] {
+		for idx := len(subs) - 1; idx >= 0; idx-- {
+			if i := subs[idx].task; lastASAP[i] == idx && !o.Cancel[i] {
 				want = append(want, fmt.Sprintf("%sb%d", prefix, i))
 			}
 		}
-		for _, k := range []string{"prioritize", "queue"} {
-			for i := 0; i < n; i++ {
-				if o.Kinds[i] == k && !o.Cancel[i] {
-					want = append(want, fmt.Sprintf("%sb%d", prefix, i))
-				}
+		for idx := range subs {
+			if i := subs[idx].task; lastASAP[i] < 0 && firstPrio[i] == idx && !o.Cancel[i] {
+				want = append(want, fmt.Sprintf("%sb%d", prefix, i))
+			}
+		}
+		for idx := range subs {
+			if i := subs[idx].task; lastASAP[i] < 0 && firstPrio[i] < 0 && firstQueue[i] == idx && !o.Cancel[i] {
+				want = append(want, fmt.Sprintf("%sb%d", prefix, i))
 			}
 		}
 		close(gate)
@@ -711,6 +754,11 @@ func TestPropQueueOrder(t *testing.T) {
 			}
 		}
 		cls := []string{fmt.Sprintf("order_batch_%d", n)}
+		for i := range o.Second {
+			if o.Second[i] != "" {
+				cls = append(cls, "order_resubmitted_"+o.Kinds[i]+"_then_"+o.Second[i])
+			}
+		}
 		if nc > 0 {
 			cls = append(cls, "order_with_cancel")
 		}
